@@ -18,7 +18,12 @@ META = {
             "run, so an edited expression re-opens a proof.  Tie: the extracted model and the real classes (real "
             "threads in strict hand-off, thread exit = join, forked process per history) replay the same histories and "
             "must print the same instance ids, slot indexes, read values and visited lists; monitors check the "
-            "property text directly against harness-side totals, plus a concurrent reader-bounds stress run.",
+            "property text directly against harness-side totals, plus a concurrent reader-bounds stress run.  "
+            "Construction racing with destruction: an interleaving machine (destructor sweep one store per step, then "
+            "release of the id, in the statement ORDER regenerated from the source; another thread pops the allocator and "
+            "counts) is proved exact for every schedule, and the real classes run that race under the deterministic "
+            "scheduler (all single/double pre-emption schedules of destructor vs constructor+count, pre-emption points "
+            "inside the sweep through a hooked element type) and as a real-thread stress.",
     "note": "Also proved: maxer/miner value() = extreme of the current period for every sample value (sentinels "
             "included), both for_each_alive overloads stay in bounds and visit exactly the lines of live threads the "
             "storage has room for, reader bounds for every schedule of an interleaving machine (on the real classes: "
@@ -191,12 +196,37 @@ def main(argv):
     lib = chk.repolib_all()
     impl = chk.build_cpp("c19_counter", [os.path.join(VERIF, "harness/seq/c19_counter.cpp")], objs=[lib],
                          flags=["-fno-access-control"]) if lib else None
+    rec = chk.build_cpp("c19_recycle", [os.path.join(VERIF, "harness/conc/c19_recycle.cpp"),
+                                        os.path.join(VERIF, "harness/shim/dsched.cpp")], flags=["-fno-access-control"],
+                        ldflags=["-ldl"])
     rng = chk.rng
     cases = []   # (cid, kind, ops)
+    rcases = []  # destructor-vs-constructor cases for the scheduler driver: (cid, fields)
     if chk.replay:
         r = json.load(open(chk.replay))["replay"]
-        cases = [("r0", r["kind"], r["ops"])]
+        if r.get("driver") == "recycle":
+            rcases = [("r0", r["fields"])]
+        else:
+            cases = [("r0", r["kind"], r["ops"])]
     else:
+        # destructor of X racing with construction of / counting into another instance Y (dsched):
+        #  directed: B runs j points, A k points, then B to completion (every pre-emption point of the destructor);
+        #  plus seeded random / pre-emptive schedules with a third thread counting into a neighbour
+        jmax, kmax = (8, 36) if not thorough else (16, 48)
+        for kind in "HAX":
+            for xadds in (1,):
+                for j in range(jmax):
+                    for k in range(kmax):
+                        ch = [1] + [0] * j + [1] + [0] * k + [1]
+                        rcases.append(("%s.d%d.%d" % (kind, j, k), [kind, 1, 2, 2, 0, xadds, 1, 0, "5,6", "-", ",".join(map(str, ch))]))
+                for k in range(kmax):
+                    ch = [0] + [0] * k + [1]
+                    rcases.append(("%s.a%d" % (kind, k), [kind, 1, 2, 1, 2, xadds, 0, 0, "9", "-", ",".join(map(str, ch))]))
+            for i in range(60 if not thorough else 600):
+                rcases.append(("%s.s%d" % (kind, i), [kind, rng.below(1 << 31), [0, 3, 1][i % 3], rng.below(4), rng.below(3), rng.below(2),
+                                                      rng.below(2), rng.below(2), "5,6,%d" % (1 + rng.below(9)), "1,2,3", "-"]))
+        for i in range(3 if not thorough else 12):
+            cases.append(("pr%d" % i, "PR", ["100", "200", "400" if not thorough else "1500"]))
         n = 40 if not thorough else 500
         for kind in ["A", "S", "X", "N", "C", "E"]:
             for j, h in enumerate(targeted(kind)):
@@ -224,6 +254,28 @@ def main(argv):
     impl_out = chk.run_cases(impl, seq_lines, timeout=900) if impl else {}
     if impl and par_lines:
         impl_out.update(chk.run_cases(impl, par_lines, timeout=900, jobs=2))
+    rlines = ["%s %s" % (cid, " ".join(str(f) for f in fields)) for cid, fields in rcases]
+    rec_out = chk.run_cases(rec, rlines, timeout=900) if rec and rlines else {}
+    recycled = 0
+    for cid, fields in rcases:
+        l = rec_out.get(cid)
+        rep = {"driver": "recycle", "fields": fields}
+        if l is None:
+            continue
+        if l.startswith("DSCHED-STUCK") or "CRASH" in l.split()[1:2]:
+            chk.violate("recycle-crash", "destructor/constructor race driver stuck or crashed: %s" % l[:300], rep)
+            continue
+        if " | " not in l:
+            chk.broke("harness", "unparsable recycle driver line", l[:300])
+            continue
+        obs, mon = l.split(" | ")[1:3]
+        if "recycled=1" in obs:
+            recycled += 1
+        for m in mon.split():
+            if m.endswith("=0"):
+                chk.violate("recycle-" + m[:-2], "a counter constructed while another instance was being destroyed does not read "
+                            "exactly what was counted into it / a neighbour or a later counter is wrong (%s): %s" % (m[:-2], obs),
+                            dict(rep, impl_line=l))
     model_out = chk.run_cases(model, [l for l, c in zip(lines, cases) if c[1] in KINDS_MODEL], timeout=900) if model else {}
     validated = 0
     nontrivial = set()
@@ -243,8 +295,10 @@ def main(argv):
         if kind[0] == "P":
             for m in mon.split(" fail=")[0].split():
                 if m.endswith("=0"):
-                    chk.violate("par-" + m[:-2], "concurrent readers: a read was outside [completed before, started before] "
-                                "or the final value is wrong (%s): %s" % (m[:-2], mon[:300]), dict(rep, impl_line=l))
+                    what = ("a counter constructed while another one was being destroyed lost a contribution (real threads)"
+                            if kind == "PR" else "concurrent readers: a read was outside [completed before, started before] or "
+                            "the final value is wrong")
+                    chk.violate("par-" + m[:-2], "%s (%s): %s" % (what, m[:-2], mon[:300]), dict(rep, impl_line=l))
             nontrivial.add((kind, " ".join(ops)))
             continue
         fails = mon.split(" fail=")[1:]
@@ -283,8 +337,10 @@ def main(argv):
                                mt[k] if k < len(mt) else "-", " ".join(ops)[:1500]))
         elif kind in KINDS_MODEL and model:
             chk.broke("correspondence", "model driver gave no line for %s" % cid, "")
-    chk.cov["evaluations"] = len(lines)
-    chk.cov["distinct_nontrivial"] = len(nontrivial)
+    chk.cov["evaluations"] = len(lines) + len(rlines)
+    chk.cov["recycle_schedules"] = len(rlines)
+    chk.cov["recycle_schedules_in_which_the_new_instance_got_the_dying_id"] = recycled
+    chk.cov["distinct_nontrivial"] = len(nontrivial) + recycled
     chk.cov["traces_validated_against_impl"] = validated
     chk.cov["rule"] = ("case = (kind, history); kinds: ConcurrentAdder, ConcurrentSummer, ConcurrentMaxer, ConcurrentMiner, "
                        "CompactEnumerableThreadLocal<int64,1> (16 per line), EnumerableThreadLocal (monitors only), plus "
@@ -294,9 +350,13 @@ def main(argv):
                        "overloads), steered at many instances (second storage), many threads, and enumeration; plus fixed "
                        "boundary histories: the two former refutation witnesses, 140 live threads (second vector block) with exit "
                        "and re-spawn, a full cache line of instances recycled, address reuse of a destroyed "
-                       "EnumerableThreadLocal.  distinct non-trivial = histories in which an instance id was handed out "
+                       "EnumerableThreadLocal; and, under the deterministic scheduler (every atomic of the id allocators / vector and "
+                       "every element assignment of the zeroing sweep is a pre-emption point), the destructor of one instance "
+                       "racing with construction of and counting into another: all (j,k) single/double pre-emption schedules "
+                       "plus seeded random ones, for a hooked element type, ConcurrentAdder and ConcurrentMaxer; plus a "
+                       "real-thread construct-while-destroy stress.  distinct non-trivial = histories in which an instance id was handed out "
                        "twice AND a slot index was used by two different threads (measured from the implementation's "
-                       "output), plus the stress runs")
+                       "output), plus the stress runs, plus the race schedules in which the new instance recycled the dying id")
     for cid, kind, ops in cases[:: max(1, len(cases) // 5)]:
         chk.sample({"case": "%s %s %s" % (cid, kind, " ".join(ops)[:300]), "impl": (impl_out.get(cid) or "")[:300],
                     "model": (model_out.get(cid) or "")[:300]})
@@ -304,6 +364,7 @@ def main(argv):
         "translator/gen.py (regex/cond/ret targets of thread_local.h and counter.h -> Z terms)",
         "extraction: ExtrOcamlBasic only; ocaml/ct_driver.ml",
         "harness/seq/c19_counter.cpp (hand-off threads, fork per history, -fno-access-control to read _instance_id/_storage)",
+        "harness/conc/c19_recycle.cpp + harness/shim (dsched; Hooked element type adds pre-emption points inside the sweep)",
         "modelled not verified: IdAllocator as a sequential LIFO free list (C14), ConcurrentVector growth in blocks (C04), "
         "operator new memory (zero/constructed blocks), 128-bit SSE add of the summer as two independent 64-bit adds"]
     chk.assumptions = ["fewer than 65408 thread ids ever allocated per cell type (uint16 cast of size() in for_each)",
